@@ -107,7 +107,9 @@ class MixedNormalAggregator(Aggregator):
             scale_aleatoric = self._np.sqrt(
                 self._np.average(scale**2, weights=weights, axis=0),
             )
-            scale_epistemic = self._np.sqrt(self._np.std(loc, axis=0) ** 2)
+            scale_epistemic = self._np.sqrt(
+                self._np.average((loc - mean_loc) ** 2, weights=weights, axis=0)
+            )
             agg["scale_aleatoric"] = scale_aleatoric
             agg["scale_epistemic"] = scale_epistemic
 
